@@ -727,6 +727,121 @@ impl CaseSpace for AppCases {
     }
 }
 
+// ---------------------------------------------------------------------------------------
+// S: fragments whose transport segments come from different link sources
+// ---------------------------------------------------------------------------------------
+
+struct SplitCases {
+    name: String,
+    cases: Vec<(bool, usize, usize, Vec<u16>)>, // any_master, fragment idx, cut, source of each segment
+}
+
+fn build_split() -> SplitCases {
+    let mut cases = Vec::new();
+    let m = crate::osim::MASTER_ADDR;
+    let frags = app_fragments();
+    for any in [false, true] {
+        for (k, (_, f)) in frags.iter().enumerate() {
+            if f.len() < 3 {
+                continue;
+            }
+            // two segments, cut after the application header or in the middle of the objects
+            for cut in [2usize, f.len() / 2 + 1] {
+                if cut >= f.len() {
+                    continue;
+                }
+                for srcs in [vec![m, m], vec![2, m], vec![m, 2], vec![2, 2], vec![2, 3]] {
+                    cases.push((any, k, cut, srcs));
+                }
+            }
+            // three segments
+            if f.len() >= 6 {
+                for srcs in [vec![m, 2, m], vec![2, m, m], vec![m, m, 2], vec![2, 2, m]] {
+                    cases.push((any, k, 0, srcs));
+                }
+            }
+        }
+    }
+    SplitCases { name: "fragments-split-across-sources".to_string(), cases }
+}
+
+impl CaseSpace for SplitCases {
+    fn name(&self) -> String {
+        self.name.clone()
+    }
+    fn total(&self) -> usize {
+        self.cases.len()
+    }
+    fn run(&self, index: usize, transcript: bool) -> RunResult {
+        let (any, k, cut, srcs) = &self.cases[index];
+        let mut res = RunResult::default();
+        let mut obs = Hasher::default();
+        let cfg = OCfg { any_master: *any, event_buf: [5; 8], ..Default::default() };
+        let mut sim = OSim::new(&cfg, 1);
+        sim.db(|db| {
+            common::add_binaries(db, 2, Some(EventClass::Class1));
+        });
+        let frags = app_fragments();
+        let (label, frag) = &frags[*k];
+        let pieces: Vec<&[u8]> = if srcs.len() == 2 {
+            vec![&frag[..*cut], &frag[*cut..]]
+        } else {
+            vec![&frag[..2], &frag[2..4], &frag[4..]]
+        };
+        let mut bytes = Vec::new();
+        for (i, (p, src)) in pieces.iter().zip(srcs.iter()).enumerate() {
+            let mut seg = vec![(i as u8) & 0x3F];
+            if i == 0 {
+                seg[0] |= crate::wire::transport::FIR;
+            }
+            if i == pieces.len() - 1 {
+                seg[0] |= crate::wire::transport::FIN;
+            }
+            seg.extend_from_slice(p);
+            bytes.extend(crate::wire::link::master_data(crate::osim::OUTSTATION_ADDR, *src, &seg));
+        }
+        sim.send_raw(&bytes);
+        let step = collect(
+            &mut sim,
+            &mut res,
+            &mut obs,
+            &format!("{label} in {} segments from {srcs:?} (any_master={any})", pieces.len()),
+            Some(frag),
+            transcript,
+        );
+        if let Some(f) = sim.failure() {
+            res.violation = Some(Violation::new("C07.X0", f.clone(), f));
+            res.obs = obs.0;
+            return res;
+        }
+        let all_configured = srcs.iter().all(|s| *s == crate::osim::MASTER_ADDR);
+        let one_source = srcs.iter().all(|s| *s == srcs[0]);
+        let wrote_anything = !step.out.is_empty();
+        let executing = step.cbs.iter().filter(|c| c.is_executing()).count();
+        if !any && !all_configured && (wrote_anything || executing > 0) {
+            res.violation = Some(Violation::new(
+                "C07.A3",
+                format!("acted-on-fragment-partly-from-foreign-master:{label}"),
+                format!("segments from {srcs:?}: out {:?} executing callbacks {executing}", step.out),
+            ));
+        } else if !one_source && executing > 0 {
+            // even with any-master, no single master sent this request
+            res.violation = Some(Violation::new(
+                "C07.A4",
+                format!("executed-fragment-joined-from-two-masters:{label}"),
+                format!("segments from {srcs:?}: {:?}", step.cbs),
+            ));
+        }
+        let mut h = Hasher::default();
+        h.add_u64(all_configured as u64 * 2 + one_source as u64);
+        h.add_u64(wrote_anything as u64);
+        res.model_states.push(h.0);
+        res.obs = obs.0;
+        res.nontrivial = true;
+        res
+    }
+}
+
 pub fn replay(name: &str, path: &[usize]) -> Option<RunResult> {
     for tier in ["quick", "thorough"] {
         let s = build_single(tier);
@@ -735,6 +850,10 @@ pub fn replay(name: &str, path: &[usize]) -> Option<RunResult> {
         }
     }
     let a = build_app();
+    if a.name == name {
+        return Some(a.run(path[0], true));
+    }
+    let a = build_split();
     if a.name == name {
         return Some(a.run(path[0], true));
     }
@@ -757,9 +876,10 @@ pub fn check(tier: &str) -> i32 {
         c.explore(&LSeq { role, depth, frames: seq_alphabet(role) });
     }
     c.cases(&build_app());
+    c.cases(&build_split());
     c.finish(
         "model_checking",
-        "link part: role {outstation, master} x self-address feature x link state {not reset, reset} x all 256 control bytes x 7 destination classes x 6 source classes x {no payload, one user-data segment}, each followed by a link-status probe, plus all frame sequences of length 3 (4 thorough) over a 11-14 letter alphabet, executed on the real tasks and compared with a reference secondary station; application part: any-master {off,on} x broadcast feature {off,on} x 3 session states x 11 fragments x 6 (source, destination) pairs; non-trivial = the endpoint reacted (reply, delivery or callback); distinct = distinct observation",
+        "link part: role {outstation, master} x self-address feature x link state {not reset, reset} x all 256 control bytes x 7 destination classes x 6 source classes x {no payload, one user-data segment}, each followed by a link-status probe, plus all frame sequences of length 3 (4 thorough) over a 11-14 letter alphabet, executed on the real tasks and compared with a reference secondary station; application part: any-master {off,on} x broadcast feature {off,on} x 3 session states x 11 fragments x 6 (source, destination) pairs; plus every fragment cut into two or three transport segments whose link sources are drawn from {configured master, foreign master 2, foreign master 3} (nothing may be executed or answered unless every segment came from the configured master; nothing joined from two masters may execute even with any-master); non-trivial = the endpoint reacted (reply, delivery or callback); distinct = distinct observation",
         &[
             "delivery of user data is observed at the application level (response / confirm / broadcast callback), for payloads from the configured peer",
             "invalid FCV encodings and TEST_LINK_STATES may be ignored or answered (not stated by the property), but never on a broadcast",
